@@ -229,6 +229,7 @@ func checkC01(c *Ctx) {
 	c01Once(c)
 	c01OneAnswer(c)
 	c01FreshBuffer(c)
+	poolResetRule(c, "R-pool-reset") // an answer is computed from its own request's arguments only
 	// "for every answer size": no reader of a peer's stream has a line limit an ordinary answer exceeds
 	scannersBounded(c, c.P.LibFns, "R-bounded-scanner")
 	c03QueueAnswered(c)
@@ -572,6 +573,69 @@ func c01IDProvenance(c *Ctx, fresh bool) {
 			nReq++
 			c.R.Check(o == "atomic counter", "R-id-fresh", construct, c.Pos(op.at.Pos()), "id is the result of an atomic add on the client's counter",
 				sprintf("%s issues a request whose id originates from %s rather than an atomic increment of the client's counter: two calls in flight can share an id", fname(op.fn), o))
+		}
+	}
+	// a request built on the client side and handed on without an id gets one from whoever sends it — a second counter
+	// next to the client's own: two calls in flight can then carry the same id. Every request object a client function
+	// creates and passes on has its ID member set.
+	if fresh {
+		reqT := c.P.RootNamed("JSONRPCRequest")
+		for _, fn := range c.P.LibFns {
+			if !clientSide(c, fn) || reqT == nil {
+				continue
+			}
+			cnt := 0
+			ir.EachInstr(fn, func(_ *ssa.BasicBlock, _ int, in ssa.Instruction) {
+				al, ok := in.(*ssa.Alloc)
+				if !ok || al.Referrers() == nil {
+					return
+				}
+				pt, ok := al.Type().(*types.Pointer)
+				if !ok || !types.Identical(pt.Elem(), reqT) {
+					return
+				}
+				hasID, passed, decoded := false, false, false
+				for _, r := range *al.Referrers() {
+					switch x := r.(type) {
+					case *ssa.FieldAddr:
+						if f, _, ok := ir.FieldOf(x); ok && f.Name == "ID" && x.Referrers() != nil {
+							for _, rr := range *x.Referrers() {
+								if st, ok := rr.(*ssa.Store); ok && st.Addr == ssa.Value(x) && !ir.IsNilConst(st.Val) {
+									hasID = true
+								}
+							}
+						}
+					case *ssa.MakeInterface:
+						// handed to a decoder: the id comes from the wire
+						if x.Referrers() != nil {
+							for _, rr := range *x.Referrers() {
+								if dc, ok := rr.(ssa.CallInstruction); ok {
+									if n := ir.CallName(dc); n == "encoding/json.Unmarshal" || n == "(*encoding/json.Decoder).Decode" {
+										decoded = true
+									}
+								}
+							}
+						}
+					case ssa.CallInstruction:
+						for _, a := range x.Common().Args {
+							if a == ssa.Value(al) {
+								passed = true
+							}
+						}
+					case *ssa.Store:
+						if x.Val == ssa.Value(al) {
+							passed = true // kept somewhere: sent later
+						}
+					}
+				}
+				if !passed || decoded {
+					return
+				}
+				cnt++
+				nReq++
+				c.R.Check(hasID, "R-id-fresh", sprintf("request object #%d created in %s carries an id", cnt, fname(fn)), c.Pos(al.Pos()), "its ID member is set where it is built",
+					sprintf("%s creates a request and hands it on without setting its id: the transport numbers it from its own counter while the other calls use the client's, so two requests in flight can share an id and one of them never gets its answer", fname(fn)))
+			})
 		}
 	}
 	// response-building sites of one function are pairwise exclusive (no path builds two answers to one request)
